@@ -352,7 +352,7 @@ package engine
 //@   use forkghosts()
 //@   use forkmonitor($2, rules, 0, 0, cursor == 0 && len(rules) > 2)
 //@   oncall (*base.RuleEntity).Execute
-//@     assert [C05] barrier: len(rules) > 2 ==> stage == 1 && nfork == len(rules) - 1 && cursor == 0 && !cfailed
+//@     assert [C05,C12] barrier: len(rules) > 2 ==> stage == 1 && nfork == len(rules) - 1 && cursor == 0 && !cfailed
 //@   ensures [C05,C12] small: 0 < len(rules) && len(rules) <= 2 ==> nfork == 0 && ((result != nil) <==> failed) && (!failed ==> cursor == len(rules))
 //@   ensures [C05,C12] invmix: len(rules) > 2 ==> nfork == len(rules) - 1 && ((result != nil) <==> (failed || cfailed)) && (cursor == 1 || cursor == 0) && (cursor == 0 <==> cfailed)
 //@   ensures [C12] nothingselected: rb != nil && len(rules) == 0 ==> result != nil && cursor == 0 && nfork == 0
@@ -492,8 +492,8 @@ package engine
 //@     assert [C12] allnamed: len(rules) == len(names) && len(names) == nSort + mConcurrent
 //@   ensures [C12] ranimpliesall: cursor > 0 || nfork > 0 ==> len(rules) == len(names) && len(names) == nSort + mConcurrent && nSort > 0 && mConcurrent > 0
 //@   ensures [C12] invalid: rb == nil || nSort <= 0 || mConcurrent <= 0 || nSort + mConcurrent != len(names) ==> result != nil && cursor == 0 && nfork == 0
-//@   ensures [C05] contall: cursor > 0 && b ==> cursor == nSort && nfork == mConcurrent && ((result != nil) <==> (failed || cfailed))
-//@   ensures [C05] stopfirst: cursor > 0 && !b ==> (failed ==> result != nil && nfork == 0) && (!failed ==> cursor == nSort && nfork == mConcurrent && ((result != nil) <==> cfailed))
+//@   ensures [C05,C12] contall: cursor > 0 && b ==> cursor == nSort && nfork == mConcurrent && ((result != nil) <==> (failed || cfailed))
+//@   ensures [C05,C12] stopfirst: cursor > 0 && !b ==> (failed ==> result != nil && nfork == 0) && (!failed ==> cursor == nSort && nfork == mConcurrent && ((result != nil) <==> cfailed))
 //@   ensures [C11] resultmap: rb != nil ==> !pend && fresh(g.returnResult) && dom(g.returnResult) == R
 //@   ensures [C11,C06] newmap: rb != nil ==> g.returnResult != nil && fresh(g.returnResult)
 //@   modifies frame rulerun, g.returnResult
@@ -529,11 +529,11 @@ package engine
 //@   use forkghosts()
 //@   use forkmonitor($2, rules, 0, 0, cursor == 0 && len(rules) == len(names) && len(names) == nConcurrent + mSort)
 //@   oncall (*base.RuleEntity).Execute
-//@     assert [C05] barrier: stage == 1 && nfork == nConcurrent && (b || !cfailed) && cursor < mSort
+//@     assert [C05,C12] barrier: stage == 1 && nfork == nConcurrent && (b || !cfailed) && cursor < mSort
 //@   ensures [C12] ranimpliesall: cursor > 0 || nfork > 0 ==> len(rules) == len(names) && len(names) == nConcurrent + mSort && nConcurrent > 0 && mSort > 0
 //@   ensures [C12] invalid: rb == nil || nConcurrent <= 0 || mSort <= 0 || nConcurrent + mSort != len(names) ==> result != nil && cursor == 0 && nfork == 0
-//@   ensures [C05] contall: nfork > 0 && b ==> cursor == mSort && nfork == nConcurrent && ((result != nil) <==> (failed || cfailed))
-//@   ensures [C05] stopfirst: nfork > 0 && !b ==> nfork == nConcurrent && (cfailed ==> result != nil && cursor == 0) && (!cfailed && failed ==> result != nil) && (!cfailed && !failed ==> cursor == mSort && result == nil)
+//@   ensures [C05,C12] contall: nfork > 0 && b ==> cursor == mSort && nfork == nConcurrent && ((result != nil) <==> (failed || cfailed))
+//@   ensures [C05,C12] stopfirst: nfork > 0 && !b ==> nfork == nConcurrent && (cfailed ==> result != nil && cursor == 0) && (!cfailed && failed ==> result != nil) && (!cfailed && !failed ==> cursor == mSort && result == nil)
 //@   ensures [C11] resultmap: rb != nil ==> !pend && fresh(g.returnResult) && dom(g.returnResult) == R
 //@   ensures [C11,C06] newmap: rb != nil ==> g.returnResult != nil && fresh(g.returnResult)
 //@   modifies frame rulerun, g.returnResult
@@ -577,9 +577,9 @@ package engine
 //@     before c1failed := ite(stage == 0, cfailed, c1failed)
 //@   ensures [C12] ranimpliesall: nfork > 0 ==> len(rules) == len(names) && len(names) == nConcurrent + mConcurrent && nConcurrent > 0 && mConcurrent > 0
 //@   ensures [C12] invalid: rb == nil || nConcurrent <= 0 || mConcurrent <= 0 || nConcurrent + mConcurrent != len(names) ==> result != nil && nfork == 0
-//@   ensures [C05] contall: nfork > 0 && b ==> nfork == nConcurrent + mConcurrent && ((result != nil) <==> cfailed)
-//@   ensures [C05] stopfirst: nfork > 0 && !b ==> (c1failed ==> result != nil && nfork == nConcurrent) && (!c1failed ==> nfork == nConcurrent + mConcurrent && ((result != nil) <==> cfailed))
-//@   ensures [C05] nodirect: cursor == 0
+//@   ensures [C05,C12] contall: nfork > 0 && b ==> nfork == nConcurrent + mConcurrent && ((result != nil) <==> cfailed)
+//@   ensures [C05,C12] stopfirst: nfork > 0 && !b ==> (c1failed ==> result != nil && nfork == nConcurrent) && (!c1failed ==> nfork == nConcurrent + mConcurrent && ((result != nil) <==> cfailed))
+//@   ensures [C05,C12] nodirect: cursor == 0
 //@   ensures [C11] resultmap: rb != nil ==> !pend && fresh(g.returnResult) && dom(g.returnResult) == R
 //@   ensures [C11,C06] newmap: rb != nil ==> g.returnResult != nil && fresh(g.returnResult)
 //@   modifies frame rulerun, g.returnResult
